@@ -2,9 +2,9 @@
 (***************************************************************************)
 (* Bounded instance of the tokenizer machine (XlTokenizer).                *)
 (*                                                                         *)
-(*   raw    every string over each alphabet of Alphabets, of length <=     *)
-(*          MaxLen (one more for alphabets of <= 6 characters), with and   *)
-(*          without the leading "=": the machine on arbitrary text,        *)
+(*   raw    every string over each alphabet of Alphabets, of length <= its *)
+(*          bound + MaxLen (MaxLen = 0 quick, 1 thorough), with and without*)
+(*          the leading "=": the machine on arbitrary text,                *)
 (*          malformed formulas included - it terminates, keeps its stack   *)
 (*          discipline and either finishes or fails the way the code does  *)
 (*   ast    the well-formed formulas of MC_C02 (every family), rendered    *)
@@ -53,12 +53,16 @@ Lex(a) ==
       [] a.k = "paren" -> <<Start(<<>>, "subexpression")>> \o Lex(a.x) \o <<Stop("subexpression")>>
 
 (* ---------------------------------------------------------------------- *)
+\* an alphabet is written in the configuration as a set of code points plus ONE element 1000 + n: its length bound
+\* (configuration files have no records)
+AlphaChars(A) == {c \in A : c < 1000}
+AlphaLen(A) == (CHOOSE k \in A : k >= 1000) - 1000
 RawCase(s, eq) == [kind |-> "raw", tree |-> [k |-> "none"], text |-> (IF eq THEN <<cEq>> ELSE <<>>) \o s]
 
 InitCase ==
     \/ /\ "raw" \in Families
-       /\ \E A \in Alphabets : \E n \in 0..(IF Cardinality(A) <= 6 THEN MaxLen + 1 ELSE MaxLen) :
-             \E s \in [1..n -> A] : \E eq \in BOOLEAN : case = RawCase(s, eq)
+       /\ \E A \in Alphabets : \E n \in 0..(AlphaLen(A) + MaxLen) :
+             \E s \in [1..n -> AlphaChars(A)] : \E eq \in BOOLEAN : case = RawCase(s, eq)
     \/ C2!InitCase
 
 Init == InitCase /\ res = C2!Pending /\ TokInit(case.text)
